@@ -16,5 +16,14 @@ def handle (fn : String) (args : List Json) : String :=
   | "format" => match args with
     | [a0] => (do let x0 ← Wire.decStr a0; pure (Wire.respondWith Wire.encStr (Gen.at_tin.format x0)) : Option String).getD "badargs"
     | _ => "badargs"
+  | "info" => match args with
+    | [a0] => (do let x0 ← Wire.decStr a0; pure (Wire.respondWith (Wire.encDict Wire.encStr Wire.encStr) (Gen.at_tin.info x0)) : Option String).getD "badargs"
+    | _ => "badargs"
+  | "is_valid" => match args with
+    | [a0, a1] => (do let x0 ← Wire.decStr a0; let x1 ← (Wire.decOpt Wire.decStr) a1; pure (Wire.respondWith Wire.encBool (Gen.at_tin.is_valid x0 x1)) : Option String).getD "badargs"
+    | _ => "badargs"
+  | "validate" => match args with
+    | [a0, a1] => (do let x0 ← Wire.decStr a0; let x1 ← (Wire.decOpt Wire.decStr) a1; pure (Wire.respondWith Wire.encStr (Gen.at_tin.validate x0 x1)) : Option String).getD "badargs"
+    | _ => "badargs"
   | _ => "nofunc"
 end Driver.D_at_tin
